@@ -14,7 +14,7 @@ import ast
 from .. import astutil as A
 from ..loader import AnalysisError
 from .c04 import typing_sites
-from .c06 import _dist_remask, _norm, buffer_protocol, collective_uniformity
+from .c06 import _dist_remask, _norm, allocation_forwards_request, buffer_protocol, collective_uniformity, comm_dtype_table, mesh_dimension_roles
 from .c15 import recovery_rules
 from .sib import DDP, DIST, FSDP, FULLY, HSDP, HYB, dist_pairs, sibling_pairs
 
@@ -149,6 +149,10 @@ def run(ctx, rep) -> None:
     rep.attempt("recovery_rules", recovery_rules, ctx, rep, "C07.2", [FSDP, HSDP])
     rep.attempt("collective_uniformity", collective_uniformity, ctx, rep, "C07.3", {"HSDPDistributor"})
     rep.attempt("buffer_protocol", buffer_protocol, ctx, rep, "C07.3", HSDP)
+    rep.rule("C07.6", "communication dtype table, allocation forwarding and mesh-dimension roles of the HSDP distributor")
+    rep.attempt("comm_dtype_table", comm_dtype_table, ctx, rep, "C07.6", HSDP)
+    rep.attempt("allocation_forwards_request", allocation_forwards_request, ctx, rep, "C07.6", HSDP)
+    rep.attempt("mesh_dimension_roles", mesh_dimension_roles, ctx, rep, "C07.6", HSDP, "_hsdp_device_mesh")
     from .c14 import assignment_determinism, buffer_views, ownership
 
     rep.attempt("ownership", ownership, ctx, rep, "C07.3", [HSDP])
